@@ -518,7 +518,8 @@ func ruleMemWriterTruncates(c *Ctx, rule string) {
 				os := Origins(ci.Arg(0), FlowOpts{Alias: true})
 				return allOrigins(os, func(o Origin) bool { return o.Kind == "alloc" || o.Kind == "nil" })
 			}
-			return false
+			// any method of File that empties the content on every path (truncate: f.data = f.data[:0])
+			return emptiesFileData(ci)
 		}
 		// the open logic may have moved into a private helper whose result Writer returns
 		hasReset := func(g *ssa.Function) bool {
@@ -731,4 +732,69 @@ func loopCallbacksOf(f *ssa.Function, slot string) []*ssa.Function {
 		})
 	}
 	return out
+}
+
+// emptiesFileData: the call is a method of memfs.File that, on every path, stores a
+// zero-length value into File.data (nil, []byte{}, x[:0], make([]byte, 0), or a
+// parameter for which this call passes such a value) and never a longer one.
+func emptiesFileData(ci *CallInfo) bool {
+	h := ci.Static
+	if h == nil || h.Blocks == nil || h.Signature.Recv() == nil || !strings.HasSuffix(qualName(h), mq(memfsPkg, "File", h.Name())) {
+		return false
+	}
+	var isEmpty func(v ssa.Value, args []ssa.Value, d int) bool
+	isEmpty = func(v ssa.Value, args []ssa.Value, d int) bool {
+		if d > 4 {
+			return false
+		}
+		v = resolve(v)
+		switch x := v.(type) {
+		case *ssa.Const:
+			return x.Value == nil
+		case *ssa.MakeSlice:
+			k, ok := constInt(x.Len)
+			return ok && k == 0
+		case *ssa.Slice:
+			if x.High != nil {
+				if k, ok := constInt(x.High); ok && k == 0 {
+					return true
+				}
+			}
+			if a, ok := x.X.(*ssa.Alloc); ok {
+				if at, ok := derefType(a.Type()).Underlying().(*types.Array); ok && at.Len() == 0 {
+					return true
+				}
+			}
+			return false
+		case *ssa.Parameter:
+			if args == nil {
+				return false
+			}
+			for i, p := range x.Parent().Params {
+				if p == x && i < len(args) {
+					return isEmpty(args[i], nil, d+1)
+				}
+			}
+		}
+		return false
+	}
+	stores := 0
+	okAll := true
+	isStore := func(in ssa.Instruction) bool {
+		st, ok := in.(*ssa.Store)
+		if !ok {
+			return false
+		}
+		fa, ok := st.Addr.(*ssa.FieldAddr)
+		return ok && fieldName(fa) == "memfs.File.data"
+	}
+	eachInstr(h, func(_ *ssa.BasicBlock, _ int, in ssa.Instruction) {
+		if isStore(in) {
+			stores++
+			if !isEmpty(in.(*ssa.Store).Val, ci.Common.Args, 0) {
+				okAll = false
+			}
+		}
+	})
+	return stores > 0 && okAll && len(MustPass(h, nil, isStore)) == 0
 }
